@@ -8,6 +8,20 @@ BASELINE = ("cd /repo && /venv/bin/python -m pytest -ra -q -p no:cacheprovider -
             "--continue-on-collection-errors")
 
 CHECKS = {
+    "C06": dict(
+        engine="F",
+        category="fault_enumeration",
+        text=("For each seeded workload (set-up history, optional edit, victim evaluation) every file-system operation "
+              "boundary of the victim - including both halves of each write and the close - is a kill -9 point: the "
+              "directory state left there is handed to fresh recovery processes which must load old-or-new complete values "
+              "for previously committed paths, re-evaluate to the reference values (new and pre-edit code) and raise nothing. "
+              "Complete over the crash points of each sampled workload; workloads are sampled by seed."),
+        note=("Trusts: kill -9 model (completed syscalls durable, userspace buffers lost), the write proxy's two-half "
+              "flush, equivalence 'killed at gate i == directory state at gate i' (cross-checked by literal SIGKILLs on a "
+              "seeded sample and on every replay), the dds-free reference shim. Parquet I/O not intercepted."),
+        technique="deterministic simulation: forked processes parked at every intercepted FS call, crash-point enumeration with kill -9 and recovery oracles",
+        design_ref="DESIGN.md 5, 7 (C06)",
+    ),
     "C12": dict(
         engine="K",
         category="exploration",
